@@ -4,7 +4,7 @@ package main
 //
 // For every function, method and package-level variable of the module an entry
 //
-//	pkg.[*]Recv.name|L=<numeric literals>|R=<package variables read>|W=<writes through parameters>
+//	pkg.[*]Recv.name|L=<numeric literals>|C=<comparison operators>|R=<package variables read>|W=<writes through parameters>
 //
 // is computed (go/types resolves identifiers, so a local that shadows a global is not a read and
 // a method call goes to the method of the receiver's type; a call through an interface goes to
@@ -43,6 +43,7 @@ var wholeAPI = map[string]bool{"C20": true}
 type shapeNode struct {
 	key    string
 	lits   []string
+	cmps   []string // comparison operators (boundary conditions: < vs <=, == vs !=)
 	reads  map[string]bool
 	pw     map[string]bool
 	callee map[types.Object]bool
@@ -242,6 +243,11 @@ func shapePass(repo, propsFile, dictDir string) (map[string]string, map[string]s
 				if v.Kind == token.INT || v.Kind == token.FLOAT {
 					n.lits = append(n.lits, v.Value)
 				}
+			case *ast.BinaryExpr:
+				switch v.Op {
+				case token.LSS, token.LEQ, token.GTR, token.GEQ, token.EQL, token.NEQ:
+					n.cmps = append(n.cmps, v.Op.String())
+				}
 			case *ast.Ident:
 				o := info.Uses[v]
 				if isPkgVar(o) {
@@ -420,7 +426,9 @@ func shapePass(repo, propsFile, dictDir string) (map[string]string, map[string]s
 			sort.Strings(s)
 			return strings.Join(s, ",")
 		}
-		return n.key + "|L=" + strings.Join(l, ",") + "|R=" + set(n.reads) + "|W=" + set(n.pw)
+		c := append([]string{}, n.cmps...)
+		sort.Strings(c)
+		return n.key + "|L=" + strings.Join(l, ",") + "|C=" + strings.Join(c, "") + "|R=" + set(n.reads) + "|W=" + set(n.pw)
 	}
 
 	facts := map[string]string{}
